@@ -90,6 +90,9 @@ SEEDS = {
  "C16e": dict(property="C16", needs="a read of a double-underscore attribute (__name__, __defaults__, user data, an explicitly fetched special method) on the wrapper: __getattr__ refuses to forward such names"),
  "C18e": dict(property="C18", needs="a growing resize of an idle reusable executor with an initializer that fails in the added worker: the manager is woken before the new workers are spawned and goes back to sleep without their sentinels (reverse order of the F3 repair)"),
  "C08e": dict(property="C08", needs="the last submit of a history while one worker is busy and the other announces its idle-timeout exit: the pool top-up now runs before the task is registered, neither submit nor the manager sees a reason to re-spawn"),
+ "C11e": dict(property="C11", needs="the same name counted under two resource types, or any leaked entry at end of life: dict.fromkeys gives the three per-type registries one shared dict"),
+ "C17e": dict(property="C17", needs="an active cgroup quota AND an affinity mask strictly smaller than ceil(quota/period): the affinity is passed to the cgroup helper as its no-quota default and dropped from the final min"),
+ "C19e": dict(property="C19", needs="two or more workers started in one _adjust_process_count call (first submit of a pool with max_workers >= 2, resize by more than one, several respawns): the depth increment stays inside the spawn loop, the k-th worker gets depth parent + k"),
  "C20b": dict(property="C20", needs="kill-type lifecycle + worker with descendants one of which vanishes during the kill: kill_process_tree returns early, the worker is neither killed nor joined (child, fd, semaphore accumulate)"),
 }
 DETECTED = json.load(open(os.path.join(ROOT, "seeded", "detected.json"))) if os.path.exists(os.path.join(ROOT, "seeded", "detected.json")) else {}
